@@ -776,7 +776,7 @@ pub fn run(ctx: &Ctx) -> Report {
     }
     Report {
         tally,
-        rule: "results of generated buildings with hostile comment and metadata strings (<, >, &, quotes, backslashes, ]]>, entity look-alikes, non-ASCII, tabs), demands present or absent, negative and large (up to 1e12) values: the plain report is parsed with its line grammar and every number compared with the result at its printed precision, tables checked for keys and sorted order; the XML is checked by a well-formedness parser (every 50th also by python expat), its numbers, element counts, values, comments and metadata compared with the result; the JSON (compact and pretty) is parsed and read back into an EnergyPerformance compared field by field; two more evaluations in fresh threads must render the same; every ~60th case goes through the real binary with --json --xml --txt; non-trivial = hostile strings present or at least three carriers; distinct = distinct (components text, factors, k_exp, area, mode)".into(),
+        rule: "results of generated buildings with hostile comment and metadata strings (<, >, &, quotes, backslashes, ]]>, entity look-alikes, non-ASCII, tabs), demands present or absent, negative and large (up to 1e12) values: the plain report is parsed with its line grammar and every number compared with the result at its printed precision, tables checked for keys and sorted order; the XML is checked by a well-formedness parser (every 50th also by python expat), its numbers, element counts, values, comments and metadata compared with the result; the JSON (compact and pretty) is parsed and read back into an EnergyPerformance compared field by field; two more evaluations in fresh threads must render the same; every ~60th case goes through the real binary with --json --xml --txt; non-trivial = hostile strings present or at least three carriers; distinct = distinct (components text, factors, k_exp, area, mode); second session: half of the program runs find their output paths holding a longer earlier document, one hourly year per run goes through the program (documents of several MiB), user factor files carry hostile comments and metadata, several biomass DHW systems without declared output are planted (error text must not vary between runs)".into(),
         assumptions: vec![
             "control characters other than tab are outside the property's string classes".into(),
             "escape_xml maps a backslash to &apos; (odd, well-formed): texts are compared modulo that mapping".into(),
